@@ -68,6 +68,10 @@ def request_paths(t, rng):
         paths += near_misses(t, rng, p)
     for p in rng.sample(base, min(len(base), 12)):
         paths += [p + "?x=1", p + "#f", p + "?x=1&y=2#f"]
+    # query strings and fragments do not affect the lookup - whatever they contain
+    for p in rng.sample(base, min(len(base), 10)):
+        paths += [p + q for q in ("?return=/docs/../a.txt", "?dir=docs/..", "#/../top", "?a=..", "?next=../index", "?p=/..", "?x=%2e%2e/", "?a=b?c=d", "#a#b", "?", "#", "?/", "?x=/" + "a" * 200,
+                                   "?" + p, "?path=" + p + ".html", "?index.html", "#index.html")]
     seen, out = set(), []
     for p in paths:
         if p in seen or p in BUILTIN or p.split("?")[0].split("#")[0] in BUILTIN or any(p.startswith(r) for r in RESERVED_PATHS) or " " in p:
